@@ -43,4 +43,10 @@ META = {
   "text": "Theorems (no axioms): for the integer expression language (saturating + - x with the sign-quadrant partition, least, greatest, four comparisons) over interval-set types of any shape within capacity: if an expression evaluates to y on a row of the input type then range propagation succeeds and the propagated set contains y (induction over the tree; the combinator lemma is generic in the function, given coordinate-wise monotonicity on each box). Tied to the code by comparing, inside Coq, the propagated range and the values of generated expression trees with what Expr::super_image / Expr::value return. All other functions and the aggregates (about 60 scalar functions, 15 aggregates) are covered by the soundness oracle only.",
   "note": "Trusted: Coq kernel, vm_compute, harness. Float, text, date, cast functions and the aggregates are NOT in the model: they are explored by the oracle (partial). Five defects were repaired by fix: commits (var/std bound, lower/upper, count/sum distinct); four classes are listed as known findings (sin/cos period shift, float accumulation rounding, cast and divide/modulo range panics).",
  },
+ "C10": {
+  "technique": "Coq proof: soundness of predicate narrowing by induction on the predicate (on top of the C06 and C11 theorems) + in-Coq differential check against DataType::filter + row oracle",
+  "design_ref": "DESIGN.md section 4, C10",
+  "text": "Theorem (no axioms): for structs of integer interval-set columns and every predicate built from comparisons (> >= < <= =) between columns, constants and integer expressions, IN lists, AND, OR, boolean constants and unsupported sub-terms, every row of the input type on which the predicate is true belongs to the narrowed type; narrowing always yields well-formed column types. The model reproduces DataType::filter (both AND orders intersected, OR as union, greatest/least images intersected with the operand type, fall-backs to the unnarrowed type) and is compared with it column by column on generated predicates. Nullable, float, text and boolean columns are covered by the row oracle only.",
+  "note": "Trusted: Coq kernel, vm_compute, harness. Modelled not verified: DataType::filter and replace. Optional stripping, non-integer columns and join ON narrowing (filter_by_join_operator) are exercised by the oracle, not proved.",
+ },
 }
